@@ -9,6 +9,7 @@ enumeration) and marks the outcome imprecise.  No path conditions, no solver.
 from __future__ import annotations
 
 import ast
+import collections as _collections
 from typing import Any, Callable, Dict, List, Optional, Tuple
 
 from .hierarchy import Hierarchy
@@ -398,7 +399,7 @@ class Interp:
         elif isinstance(target, ast.Subscript):
             base = self.eval(target.value, env, f)
             key = self.eval(target.slice, env, f)
-            if isinstance(base, dict) and isinstance(key, (str, int)):
+            if isinstance(base, dict) and isinstance(key, (str, int, Obj)):
                 base[key] = v
             elif isinstance(base, list) and isinstance(key, int) and not isinstance(key, bool) and -len(base) <= key < len(base):
                 base[key] = v
@@ -497,6 +498,9 @@ class Interp:
                 return r if isinstance(op, ast.In) else (not r)
             if isinstance(b, dict) and isinstance(a, tuple) and all(isinstance(x, (str, int, type(None))) for x in a):
                 r = a in b
+                return r if isinstance(op, ast.In) else (not r)
+            if isinstance(b, dict) and isinstance(a, Obj) and any(isinstance(k, Obj) for k in b):
+                r = any(k is a for k in b)
                 return r if isinstance(op, ast.In) else (not r)
             if isinstance(b, (dict, set)) and all(isinstance(k, (str, int)) for k in b) and isinstance(a, (tuple, Obj)):
                 # a tuple / opaque object never equals a string or integer key
@@ -624,8 +628,8 @@ class Interp:
                     return base[key]
                 except IndexError:
                     raise _Raise("IndexError")
-            if isinstance(base, dict) and isinstance(key, (str, int)):
-                if key in base:
+            if isinstance(base, dict) and isinstance(key, (str, int, Obj)):
+                if key in base or isinstance(base, _collections.defaultdict):
                     return base[key]
                 raise _Raise("KeyError")
             return TOP
@@ -809,6 +813,8 @@ class Interp:
                     return tuple(v) if n == "tuple" else list(v)
                 if isinstance(v, dict):
                     return tuple(v) if n == "tuple" else list(v)
+                if isinstance(v, set) and all(isinstance(x, (str, int)) for x in v):
+                    return tuple(sorted(v)) if n == "tuple" else sorted(v)
                 if isinstance(v, Obj) and isinstance(v.attrs.get("__iter__"), (list, tuple)):
                     return tuple(v.attrs["__iter__"]) if n == "tuple" else list(v.attrs["__iter__"])
                 return TOP
@@ -823,6 +829,8 @@ class Interp:
                         return TOP
                 d.update(kwargs)
                 return d
+            if n == "defaultdict" and len(c.args) == 1 and isinstance(c.args[0], ast.Name) and c.args[0].id in ("list", "dict", "set"):
+                return _collections.defaultdict({"list": list, "dict": dict, "set": set}[c.args[0].id])
             if n == "zip":
                 if all(isinstance(a, (tuple, list)) for a in args):
                     return [tuple(x) for x in zip(*args)]
